@@ -38,6 +38,10 @@ PY
 for run in $(python3 -c "import json,sys; print(' '.join(str(r) for r in json.load(open('$1'))['uids']))"); do
   if [ "$run" = "root" ]; then
     "$2" --dry-run --no-kmsg-log /nonexistent-out > "$3/out.root" 2> "$3/err.root" || true
+  elif [ "${run#sys}" != "$run" ]; then
+    # the SYSTEM generator started by an unprivileged UID: which generator runs is decided by --user / the program name, not by the UID
+    HOME=/nonexistent-home XDG_CONFIG_HOME=/nonexistent-cfg XDG_RUNTIME_DIR=/nonexistent-run \
+      setpriv --reuid="${run#sys}" --regid="${run#sys}" --clear-groups "$2" --dry-run --no-kmsg-log /nonexistent-out > "$3/out.$run" 2> "$3/err.$run" || true
   else
     HOME=/nonexistent-home XDG_CONFIG_HOME=/nonexistent-cfg XDG_RUNTIME_DIR=/nonexistent-run \
       setpriv --reuid="$run" --regid="$run" --clear-groups "$2" --user --dry-run --no-kmsg-log /nonexistent-out > "$3/out.$run" 2> "$3/err.$run" || true
@@ -85,7 +89,7 @@ def gen_tree(rng):
 def run(ctx):
     ctx.rule = ("random directory trees below /etc/containers/systemd (numeric and non-numeric names nested to depth 3 below users/, plus system-level subdirectories) with one marker unit "
                 "per directory, plus marker units in /usr/share/containers/systemd and /run/containers/systemd; staged in a private mount namespace (tmpfs over /etc, /run, /usr/share), in 3 of 5 trees with /etc/containers or /etc/containers/systemd being a symbolic link (relative or absolute target); the real "
-                "binary run as root (system generator) and as 3-4 unprivileged UIDs (--user) with --dry-run; non-trivial = tree has a numeric directory with a nested subdirectory or a numeric "
+                "binary run as root (system generator), as 3 unprivileged UIDs (--user), as the system generator started by an unprivileged UID and as the user generator started by UID 0, with --dry-run; non-trivial = tree has a numeric directory with a nested subdirectory or a numeric "
                 "directory below a non-numeric one; distinct = distinct (tree, uid)")
     rng = ctx.rng
     ntrees = ctx.volume(7, 63)
@@ -95,7 +99,7 @@ def run(ctx):
     mism = 0
     for t in range(ntrees):
         tree = gen_tree(rng)
-        uids = ["root"] + rng.sample([1000, 2000, 3000, 42, 77], 3)
+        uids = ["root"] + rng.sample([1000, 2000, 3000, 42, 77], 3) + [rng.choice(["sys1000", "sys42"]), 0]      # also: system generator as a user, user generator as UID 0
         plan = {"dirs": [], "uids": uids, "layout": ["plain", "containers_symlink", "containers_symlink_abs", "systemd_symlink_abs", "users_symlink_abs", "systemd_symlink", "users_symlink"][t % 7]}
         ctx.count("layout:" + plan["layout"])
         markers = {}
@@ -124,23 +128,24 @@ def run(ctx):
                 nontriv = any(len(r) >= 3 and r[0] == "users" and (r[1][:1].isdigit() or r[2][:1].isdigit()) for r in tree)
                 if nontriv:
                     ctx.nontrivial.add((tuple(tree), uid))
-                ctx.count("run:%s" % ("root" if uid == "root" else "user"))
+                system = uid == "root" or str(uid).startswith("sys")
+                ctx.count("run:%s" % ("root" if uid == "root" else ("system-generator-as-user" if system else ("user-generator-as-uid0" if uid == 0 else "user"))))
                 for m, (where, rel) in markers.items():
                     used = m in seen
-                    if uid == "root":
+                    if system:
                         want = not (where == "admin" and rel[:1] == ["users"])
                     else:
                         want = where == "admin" and allowed_user(uid, rel)
                     if used != want:
                         path = {"admin": "/etc/containers/systemd/", "distro": "/usr/share/containers/systemd/", "temp": "/run/containers/systemd/"}[where] + "/".join(rel)
                         cls = None
-                        if uid != "root" and where == "admin" and len(rel) >= 3 and rel[0] == "users":
+                        if not system and where == "admin" and len(rel) >= 3 and rel[0] == "users":
                             cls = "LastComponentTested"
                         ctx.failures.append({"op": "e2e", "uid": uid, "dir": path, "tree": ["/".join(r) for r in tree],
                                              "layout": plan["layout"], "what": "generator for %s %s %s (layout %s)" % (uid, "reads" if used else "does not read", path, plan["layout"]), "class": cls})
                     # model correspondence (administrator's tree only)
                     if where == "admin" and ctx.model_ok:
-                        if uid == "root":
+                        if system:
                             mo = vlib.run_model([case_line("root_includes", *rel)])[0]
                         else:
                             mo = vlib.run_model([case_line("rootless_includes", str(uid), *rel)])[0]
